@@ -15,6 +15,11 @@ def cases(tier, mode):
     out = []
     for m in fams():
         out += m.cases(tier, mode)
+    if mode == 'safety':
+        # C11 over histories = (each step is memory-safe from every state satisfying the representation invariant) + (each step
+        # preserves that invariant): the invariant assertions of the functional properties are therefore also C11's obligations
+        for c in out:
+            c.co_owned = r'\.(wf|inv)$|\.(wf|inv)\b'
     return out
 
 
